@@ -177,15 +177,21 @@ def judge(mod, case, res):
 
 def run_cases(mod, tier, seed, shard, nshards, limit_s):
     out = Outcome()
-    t0 = time.time()
+    # the budget is counted in CPU time of this process (user + system):
+    # a loaded machine must not turn a check into "inconclusive"; a
+    # generous wall clock (10x) stays as the safety net
+    t0 = time.process_time()
+    wall0 = time.time()
     reach = Reach(getattr(mod, 'ANCHORS', []))
     reach.start()
     try:
         for index, case in enumerate(mod.gen_cases(tier, seed)):
             if index % nshards != shard:
                 continue
-            if time.time() - t0 > limit_s:
-                out.errors.append(f'time budget {limit_s}s reached at case '
+            if time.process_time() - t0 > limit_s \
+                    or time.time() - wall0 > 10 * limit_s:
+                out.errors.append(f'time budget {limit_s}s (CPU; 10x that '
+                                  f'on the wall clock) reached at case '
                                   f'{index}; remaining cases not run')
                 break
             try:
@@ -493,7 +499,7 @@ def main(argv=None):
                                + (argv or sys.argv[1:]), env=env, cwd=VERIF)
 
     if args.limit is None:
-        args.limit = 150 if args.tier == 'quick' else 1500
+        args.limit = 300 if args.tier == 'quick' else 1500
     if args.worker:
         return worker_main(args)
     if args.replay:
@@ -528,7 +534,8 @@ def main(argv=None):
             reaches = []
             for shard, out, proc in procs:
                 try:
-                    stdout, _ = proc.communicate(timeout=args.limit * 1.5 + 120)
+                    stdout, _ = proc.communicate(
+                        timeout=args.limit * 10 + 300)
                 except subprocess.TimeoutExpired:
                     proc.kill()
                     proc.communicate()
